@@ -81,15 +81,19 @@ PROPS = {
   'level_text': 'Generated leaf sequences (hash and metadata leaves, uniform / random / near-255 levels, maximum-level settings) are added to a tree builder; every '
                 'accept/refuse decision is compared with a reference model (the closed tree must stay within the level range), refused leaves are followed by more leaves, '
                 'and after closing the root is compared with an independently computed canonical left-to-right forest merge and every accepted hash leaf with the reference '
-                'chain fold of its extracted chain. Exhaustive over all leaf counts up to a bound for uniform levels. Block-signer part: see level_note.',
-  'level_note': 'Trusted: ref/chain.cpp, Crypto++ digests, the forest-merge model in harness/C16.cpp. The block-signer clauses (masking, per-leaf metadata, reset) are exercised by the '
-                'block-signer cases added with the aggregator simulation; until then only the tree-builder clauses are decided.',
+                'chain fold of its extracted chain. Exhaustive over all leaf counts up to a bound for uniform levels. '
+                'Block signer (a quarter of the generated cases): 1..8 leaves with optional per-leaf metadata and levels, masking on/off with generated IV and previous leaf, signed through the '
+                'deterministic reference aggregator behind the simulated transport; every leaf signature is decoded and evaluated by the reference model (starts from the leaf hash, internally '
+                'consistent, metadata in the first link, mask = H(previous leaf || iv) on the left, previous-leaf chain recomputed with the reference chain formula), and a signer that was fed '
+                'other leaves (optionally signed) and then reset must report the same previous-leaf values and produce byte-identical signatures as a new signer.',
+  'level_note': 'Trusted: ref/chain.cpp, Crypto++ digests, the forest-merge model in harness/C16.cpp. ref/sigmodel.cpp and the reference aggregator for the block-signer cases.',
   'rule': 'rapidcheck choice strings -> (algorithm, 1..400 leaves each hash|metadata with level from six level distributions incl. 240..255, max level unset/tight/random); '
           'exhaustive: n = 1..N uniform-level hash leaves x 6 level values x {unset, tight max level}. Non-trivial = >= 3 leaves with non-uniform levels, or a refused leaf '
           'followed by more leaves; distinct = distinct (algorithm, n, level mode, max level, metadata count, sample levels).',
-  'quick': {'cases': 3200, 'max_size': 300, 'exhaustive': True, 'wall_s': 900},
-  'thorough': {'cases': 64000, 'max_size': 400, 'exhaustive': True, 'wall_s': 3000},
-  'essential_classes': ['all-accepted', 'refusal-then-more-leaves', 'has-metadata-leaves', 'max-level-set', 'proofs-checked'],
+  'quick': {'cases': 6400, 'max_size': 300, 'exhaustive': True, 'wall_s': 900},
+  'thorough': {'cases': 128000, 'max_size': 400, 'exhaustive': True, 'wall_s': 3000},
+  'sim': ['simsock', 'fakecurl', 'simclock'],
+  'essential_classes': ['all-accepted', 'refusal-then-more-leaves', 'has-metadata-leaves', 'max-level-set', 'proofs-checked', 'block-signer:signatures-checked', 'block-signer:reset-compared', 'block-signer:masking+metadata'],
   'assumptions': ['reference forest merge reflects the documented canonical merge'],
  }, 'C01': {
   'technique': 'model-based property testing (rapidcheck): reference-built signatures with named semantic mutations against an independent evaluation of the consistency conditions',
